@@ -817,6 +817,48 @@ def fam_regress(tier, seed):
                 {"at": int(2.3 * H), "do": "partition", "i": "A", "mode": mode},
                 {"at": int(2.3 * H) + 50 * MS, "do": "stopctx", "i": "A", "del": True, "timeout_us": rng.choice([300, 600]) * MS},
                 {"at": int(2.3 * H) + 4 * S, "do": "heal", "i": "A"}], "regress", 8 * H + 6 * S, lat=20 * MS, watch=30 * MS, part_timeout_us=3 * S))
+        # 26. refreshes that keep failing while a health checker with a large failure threshold is configured: the third failed
+        #     refresh ends the term whatever that threshold is
+        fk = rng.choice(["fail:timeout", "fail:noresponders", "timeout", "fail:other"])
+        hn = rng.choice([5, 8, 10])
+        out.append(scn("reg-refreshes-fail-with-health-threshold-%d-%s-%d" % (hn, fk.replace(":", "_"), k), seed * 1000 + k, H, 5.0,
+                       [inst("A", health_n=hn, health="", health_rest="h"), inst("B")],
+                       [{"at": 0, "do": "start", "i": "A"}, {"at": H // 4, "do": "start", "i": "B"}], "regress", 16 * H + 6 * S,
+                       rules=[{"match": {"i": "A", "kind": "update", "src": "hb"}, "fault": fk, "from_nth": rng.choice([1, 2, 3]), "count": 0}],
+                       lat=20 * MS, watch=30 * MS, part_timeout_us=2 * S))
+        # 27. a demotion callback that takes longer than the record's TTL, after a demotion by the heartbeat: the same (only)
+        #     instance fills the vacancy meanwhile
+        H2 = 200 * MS
+        out.append(scn("reg-slow-demote-callback-then-reacquire-%d" % k, seed * 1000 + k, H2, 3.0,
+                       [inst("A", demote_dur_us=rng.choice([3, 4]) * S)],
+                       [{"at": 0, "do": "start", "i": "A"}, {"at": int((2.2 + rng.random()) * H2), "do": "out_del"}], "regress", 12 * S,
+                       lat=10 * MS, watch=20 * MS))
+        # 28. the last "key exists" answer of a losing acquisition round arrives while a younger round of the same instance is
+        #     inside its promotion (scheduler gate in the metrics callback that counts the transition to LEADER)
+        out.append(scn("reg-losing-round-answered-inside-promotion-%d" % k, seed * 1000 + k, H, ratio,
+                       [inst("A"), inst("B", gate_trans_to="LEADER")], [
+            {"at": 0, "do": "start", "i": "A"}, {"at": H // 10, "do": "start", "i": "B"},
+            {"when": {"i": "B", "kind": "create", "src": "acq", "nth": 5, "phase": "post"}, "do": "stopctx", "i": "A", "del": True,
+             "then": [{"do": "sleep", "us": rng.choice([450, 600]) * MS}, {"do": "release_gate", "i": "B"}], "release": "now"}],
+            "regress", 9 * H + 3 * S, lat=10 * MS, watch=20 * MS))
+        # 29. a StopWithContext that times out while the watch loop is stuck in the store, a restart of the same object, then a
+        #     change of leader: the restarted follower follows the new leader
+        for kind in ("watch", "get"):
+            m = {"i": "B", "kind": kind, "nth": 1, "phase": "pre"}
+            if kind == "get":
+                m["src"] = "check"
+            out.append(scn("reg-restart-after-timed-out-stopctx-follows-new-leader-%s-%d" % (kind, k), seed * 1000 + k, H, ratio,
+                           [inst("A"), inst("B"), inst("C")], [
+                {"at": 0, "do": "start", "i": "A"}, {"at": H // 4, "do": "start", "i": "B"}, {"at": H // 3, "do": "start", "i": "C"},
+                {"when": m, "do": "stopctx", "i": "B", "timeout_us": 300 * MS,
+                 "then": [{"do": "sleep", "us": 1 * S}, {"do": "start", "i": "B"}, {"do": "sleep", "us": 1 * S}]},
+                {"at": 5 * S + 2 * H, "do": "stopctx", "i": "A", "del": True}], "regress", 9 * S + 10 * H, lat=20 * MS, watch=30 * MS))
+        # 30. the record is replaced by an outside party (with a higher priority) between a take-over's read and its write
+        out.append(scn("reg-record-replaced-between-takeover-read-and-write-%d" % k, seed * 1000 + k, H, ratio,
+                       [inst("A", prio=1), inst("B", prio=5, takeover=True)], [
+            {"at": 0, "do": "start", "i": "A"}, {"at": H // 4, "do": "start", "i": "B"},
+            {"when": {"i": "B", "kind": "get", "src": "takeover", "nth": 1, "phase": "post"}, "do": "out_put", "cls": "priohuge",
+             "then": [{"do": "sleep", "us": 5 * MS}], "release": "now"}], "regress", 12 * H + 3 * S, lat=20 * MS, watch=30 * MS))
         # 19. a heartbeat tick held by a hanging health check while the leader is preempted and, as a follower, observes its
         #     successor's next refresh: when the check returns the tick must not go on to the Update
         out.append(scn("reg-hanging-check-across-preemption-%d" % k, seed * 1000 + k, H1, 5.0,
